@@ -13,7 +13,7 @@ use serde_json::{json, Value};
 pub const META: Meta = Meta {
     id: "C05",
     level: "exploration",
-    rule: "Metamorphic triples: the request as given, without If-Range (R0), and without If-Range and Range (R-). Enumerated: entity ETag {absent, strong, weak, empty, Latin-1, non-UTF-8, U+FFFD, backslashes} x mtime {absent, T} x If-Range in {identical, W/ toggled on either side, different tag, one character shorter / longer, one byte changed (first / middle / last, obs-text stays obs-text), upper/lower-cased, trailing space, unquoted, empty, HTTP-date before/equal/after Last-Modified in all three date formats, garbage} x Range in {single, multipart-eligible multiple, unsatisfiable, garbage, absent} x {GET, HEAD} x optional extra conditional; proptest for other tags, lengths and ranges. Oracle: identical strong tag => same status/Content-Range/Content-Length/ranges/bytes as R0; date equal to Last-Modified => as R0 or as R-; anything else => as R- (so never 206 or 416). Non-trivial = Range present and satisfiable and If-Range a match or a near-miss; distinct by fingerprint of case.",
+    rule: "Metamorphic triples: the request as given, without If-Range (R0), and without If-Range and Range (R-). Enumerated: entity ETag {absent, strong, weak, empty, Latin-1, non-UTF-8, U+FFFD, backslashes} x mtime {absent, T} x If-Range in {identical, W/ toggled on either side, different tag, one character shorter / longer, one byte changed (first / middle / last, obs-text stays obs-text), upper/lower-cased, trailing space, unquoted, empty, HTTP-date before/equal/after Last-Modified in all three date formats, garbage} x Range in {single, multipart-eligible multiple, unsatisfiable, garbage, absent} x {GET, HEAD} x optional extra conditional; If-Range repeated over 2-3 field lines none of which is the strong tag (never partial); proptest for other tags, lengths and ranges. Oracle: identical strong tag => same status/Content-Range/Content-Length/ranges/bytes as R0; date equal to Last-Modified => as R0 or as R-; anything else => as R- (so never 206 or 416). Non-trivial = Range present and satisfiable and If-Range a match or a near-miss; distinct by fingerprint of case.",
     assumptions: &["harness entity honours the Entity contract", "entity headers are not compared (C14 / C06 cover them)"],
 };
 
@@ -240,6 +240,49 @@ pub fn run_all(cx: &Cx) -> Acc {
                             req,
                         };
                         acc.run_case(cx, "enumerated", &c, |acc| check(&c, acc));
+                    }
+                }
+            }
+        }
+    }));
+    // If-Range on two or three field lines none of which is the entity's strong tag (twice the same
+    // non-matching value, near misses, dates): never a partial answer, however the lines are read.
+    let line_etags: Vec<Option<Bs>> = vec![Some(quote(b"foo", false)), Some(quote(b"foo", true)), None];
+    acc.merge(par_units(cx, "repeated-if-range-lines", &line_etags, true, "2-3 If-Range field lines, all non-matching (variants of the tag, other tags, dates, garbage) x 9 Range values x GET/HEAD", |cx, etag, acc| {
+        let strong = etag.as_ref().filter(|t| !t.0.starts_with(b"W/")).map(|t| t.0.clone());
+        let vals: Vec<Vec<u8>> = if_range_variants(etag, Mtime::At(T0, 0)).into_iter().filter(|v| Some(v) != strong.as_ref() && http::HeaderValue::from_bytes(v).is_ok()).take(14).collect();
+        for (i, a) in vals.iter().enumerate() {
+            for (j, b) in vals.iter().enumerate() {
+                if (i + j) % 3 != 0 && i != j {
+                    continue; // a third of the pairs, and every value twice
+                }
+                for third in [false, true] {
+                    for range in RANGES {
+                        for method in ["GET", "HEAD"] {
+                            let mut req = ReqSpec::get().method(method).with("if-range", a).with("if-range", b);
+                            if third {
+                                req = req.with("if-range", a);
+                            }
+                            if let Some(r) = range {
+                                req = req.with("range", r);
+                            }
+                            let c = Case {
+                                ent: EntitySpec {
+                                    len: 1000,
+                                    etag: etag.clone(),
+                                    mtime: Mtime::At(T0, 0),
+                                    headers: vec![("content-type".into(), Bs::s("text/plain"))],
+                                    plan: vec![PStep::Chunk(300)],
+                                    faults: vec![],
+                                    tail: vec![],
+                                    segments: 0,
+                                    counting_hint: false,
+                                    unfused_errors: false,
+                                },
+                                req,
+                            };
+                            acc.run_case(cx, "repeated-if-range-lines", &c, |acc| check(&c, acc));
+                        }
                     }
                 }
             }
